@@ -11,6 +11,8 @@ INVARIANTS
   DeliveredMatchesLog
   FinalsEqual
   ResumedIsPrefixOfFinal
+  StaleIsPrefix
+  StatesEqual
   Stats
 ALIAS Alias
 CHECK_DEADLOCK TRUE
